@@ -4,7 +4,7 @@ CONSTANTS MaxPre = 2 MaxN = 4
   Accs <- AccsSmall
   Posts <- PostsSmall
   FlowKinds = {"ctx"}
-  Drivers = {"run", "fill", "split"}
+  Drivers = {"run", "fill", "persist", "split"}
   Places = {"alone", "middle"}
   StopFlag = "per_branch"
   CopyMode = "per_branch"
